@@ -727,13 +727,15 @@ func errVarOf(call *ssa.Call) *ssa.Alloc {
 }
 
 // checkDriverOpenFlags: "read-only transactions cannot modify anything" starts at the handle: a database opened with the
-// read-only flag must reach bbolt as ReadOnly. The driver's two entry points hand the opener several bools in a row
-// (no-freelist-sync, create, read-only); the rule pins each to its source: `create` is the constant false in the function
-// registered as Driver.Open and the constant true in Driver.Create; `readOnly` and `noFreelistSync` are the parsed
-// arguments #3 and #1 of the driver call (the documented order: path, no-freelist-sync, timeout, read-only); and the
-// opener stores its readOnly parameter into bbolt's Options.ReadOnly.
+// read-only flag must reach bbolt as ReadOnly. The driver's two entry points hand the opener several bools (no-freelist-
+// sync, create, read-only — in a row, or grouped in a small struct); the rule pins each to its source: `create` is the
+// constant false in the function registered as Driver.Open and the constant true in Driver.Create; what is stored into
+// bbolt's Options.ReadOnly and Options.NoFreelistSync, followed back field by field through parameters, results and small
+// structs of the package, is the driver argument #3 and #1 (the documented order: path, no-freelist-sync, timeout,
+// read-only).
 func checkDriverOpenFlags(c *Ctx, rule string) {
 	p := c.P
+	pkg := rootMod + "/" + bdbPkg
 	slots := map[string]*ssa.Function{}
 	for _, fn := range p.FuncsIn(bdbPkg) {
 		for _, b := range fn.Blocks {
@@ -757,65 +759,195 @@ func checkDriverOpenFlags(c *Ctx, rule string) {
 		}
 	}
 	c.Floor(rule, "registered driver entry points", len(slots), 2)
-	// the index of the driver argument a value was parsed from
-	argIndexOf := func(v ssa.Value) (int64, bool) {
-		sl := &Slicer{P: p, ThroughReturns: func(g *ssa.Function) bool { return fnPkgPath(g) == rootMod+"/"+bdbPkg }}
-		for _, o := range sl.Origins(v) {
-			var cur ssa.Value = o
-			for hops := 0; hops < 4; hops++ {
-				switch x := cur.(type) {
-				case *ssa.Extract:
-					cur = x.Tuple
-					continue
-				case *ssa.TypeAssert:
-					cur = x.X
-					continue
-				case *ssa.UnOp:
-					if ia, ok := x.X.(*ssa.IndexAddr); ok {
-						return constInt(ia.Index)
-					}
-				}
-				break
+
+	// field-sensitive backward trace to the index of the driver argument a value was parsed from
+	var trace func(v ssa.Value, depth int, out map[int64]bool)
+	var traceField func(v ssa.Value, field string, depth int, out map[int64]bool)
+	local := func(g *ssa.Function) bool { return g != nil && len(g.Blocks) > 0 && fnPkgPath(g) == pkg }
+	returnsOf := func(g *ssa.Function, idx int) []ssa.Value {
+		var out []ssa.Value
+		for _, b := range g.Blocks {
+			if r, ok := b.Instrs[len(b.Instrs)-1].(*ssa.Return); ok && idx < len(r.Results) {
+				out = append(out, r.Results[idx])
 			}
 		}
-		return 0, false
+		return out
 	}
+	callerArgs := func(prm *ssa.Parameter) []ssa.Value {
+		var out []ssa.Value
+		f := prm.Parent()
+		idx := paramIndex(f, prm)
+		for _, cs := range p.realCallers(f) {
+			if args := cs.Common().Args; idx >= 0 && idx < len(args) {
+				out = append(out, args[idx])
+			}
+		}
+		return out
+	}
+	trace = func(v ssa.Value, depth int, out map[int64]bool) {
+		if depth > 10 {
+			return
+		}
+		v = stripConv(v)
+		switch x := v.(type) {
+		case *ssa.Parameter:
+			for _, a := range callerArgs(x) {
+				trace(a, depth+1, out)
+			}
+		case *ssa.Phi:
+			for _, e := range x.Edges {
+				trace(e, depth+1, out)
+			}
+		case *ssa.Extract:
+			switch t := x.Tuple.(type) {
+			case *ssa.TypeAssert:
+				trace(t.X, depth+1, out)
+			case *ssa.Call:
+				if g := t.Call.StaticCallee(); local(g) {
+					for _, r := range returnsOf(g, x.Index) {
+						trace(r, depth+1, out)
+					}
+				}
+			}
+		case *ssa.TypeAssert:
+			trace(x.X, depth+1, out)
+		case *ssa.Call:
+			if g := x.Call.StaticCallee(); local(g) {
+				for _, r := range returnsOf(g, 0) {
+					trace(r, depth+1, out)
+				}
+			}
+		case *ssa.Field:
+			st := x.X.Type().Underlying().(*types.Struct)
+			traceField(x.X, st.Field(x.Field).Name(), depth+1, out)
+		case *ssa.UnOp:
+			if x.Op != token.MUL {
+				return
+			}
+			switch a := x.X.(type) {
+			case *ssa.IndexAddr:
+				if k, ok := constInt(a.Index); ok {
+					out[k] = true
+				}
+			case *ssa.FieldAddr:
+				_, f := fieldAddrName(a)
+				traceField(a.X, f, depth+1, out)
+			case *ssa.Alloc:
+				for _, st := range storesTo(a) {
+					trace(st.Val, depth+1, out)
+				}
+			}
+		}
+	}
+	// the value of field `field` of the struct (or pointer to struct) v
+	traceField = func(v ssa.Value, field string, depth int, out map[int64]bool) {
+		if depth > 10 {
+			return
+		}
+		v = stripConv(v)
+		switch x := v.(type) {
+		case *ssa.Parameter:
+			for _, a := range callerArgs(x) {
+				traceField(a, field, depth+1, out)
+			}
+		case *ssa.Phi:
+			for _, e := range x.Edges {
+				traceField(e, field, depth+1, out)
+			}
+		case *ssa.Extract:
+			if call, ok := x.Tuple.(*ssa.Call); ok {
+				if g := call.Call.StaticCallee(); local(g) {
+					for _, r := range returnsOf(g, x.Index) {
+						traceField(r, field, depth+1, out)
+					}
+				}
+			}
+		case *ssa.Call:
+			if g := x.Call.StaticCallee(); local(g) {
+				for _, r := range returnsOf(g, 0) {
+					traceField(r, field, depth+1, out)
+				}
+			}
+		case *ssa.UnOp:
+			if x.Op == token.MUL {
+				traceField(x.X, field, depth+1, out)
+			}
+		case *ssa.Alloc:
+			for _, u := range usesOf(x) {
+				switch y := u.(type) {
+				case *ssa.FieldAddr:
+					if _, f := fieldAddrName(y); f == field {
+						for _, u2 := range usesOf(y) {
+							if st, ok := u2.(*ssa.Store); ok && st.Addr == ssa.Value(y) {
+								trace(st.Val, depth+1, out)
+							}
+						}
+					}
+				case *ssa.Store:
+					if y.Addr == ssa.Value(x) {
+						traceField(y.Val, field, depth+1, out)
+					}
+				}
+			}
+		}
+	}
+	want := map[string]int64{"ReadOnly": 3, "NoFreelistSync": 1}
 	for slot, g := range slots {
-		for _, ci := range callsOf(g) {
-			call, ok := ci.(*ssa.Call)
-			if !ok {
-				continue
+		// the create flag, wherever the entry point hands it on
+		nCreate := 0
+		reach := map[*ssa.Function]bool{}
+		var walk func(f *ssa.Function, depth int)
+		walk = func(f *ssa.Function, depth int) {
+			if reach[f] || depth > 2 {
+				return
 			}
-			callee := call.Call.StaticCallee()
-			if callee == nil || fnPkgPath(callee) != fnPkgPath(g) {
-				continue
-			}
-			cr := p.argNamed(call, "create", -1)
-			if cr == nil {
-				continue
-			}
-			b, isC := constBool(stripConv(cr))
-			c.Check(rule, "driver-create-flag:"+slot, call.Pos(), isC && b == (slot == "Create"),
-				"the function registered as Driver."+slot+" does not hand the opener create="+fmt.Sprint(slot == "Create")+" as a constant: another flag of the call has taken its place")
-			for name, want := range map[string]int64{"readOnly": 3, "noFreelistSync": 1} {
-				a := p.argNamed(call, name, -1)
-				if a == nil {
+			reach[f] = true
+			for _, ci := range callsOf(f) {
+				call, ok := ci.(*ssa.Call)
+				if !ok {
 					continue
 				}
-				idx, ok := argIndexOf(a)
-				c.Check(rule, "driver-flag-source:"+slot+"/"+name, call.Pos(), ok && idx == want,
-					fmt.Sprintf("the function registered as Driver.%s does not hand the opener, as %s, the driver argument #%d: a handle asked to be read-only is opened read-write (or the other way round)", slot, name, want))
-			}
-			// the opener passes the flag on to bbolt
-			okRO := false
-			for _, fn := range p.regionOf(callee) {
-				for _, st := range storesToFieldOwner(fn, "Options", "ReadOnly") {
-					if prm, ok := stripConv(st.Val).(*ssa.Parameter); ok && prm.Name() == "readOnly" {
-						okRO = true
+				callee := call.Call.StaticCallee()
+				if !local(callee) {
+					continue
+				}
+				if f == g && len(callee.Params) == len(call.Call.Args) {
+					for i, prm := range callee.Params {
+						if prm.Name() == "create" && isBoolType(prm.Type()) {
+							nCreate++
+							b, isC := constBool(stripConv(call.Call.Args[i]))
+							c.Check(rule, "driver-create-flag:"+slot, call.Pos(), isC && b == (slot == "Create"),
+								"the function registered as Driver."+slot+" does not hand the opener create="+fmt.Sprint(slot == "Create")+" as a constant: another flag of the call has taken its place")
+						}
 					}
 				}
+				walk(callee, depth+1)
 			}
-			c.Check(rule, "opener-passes-read-only:"+slot, callee.Pos(), okRO, "the opener does not store its readOnly parameter into bbolt's Options.ReadOnly")
 		}
+		walk(g, 0)
+		c.Check(rule, "driver-create-flag-present:"+slot, g.Pos(), nCreate > 0, "the function registered as Driver."+slot+" hands no `create` flag to an opener of the package (undecided)")
+		// what reaches bbolt's options
+		nOpt := 0
+		for f := range reach {
+			for field, idx := range want {
+				for _, st := range storesToFieldOwner(f, "Options", field) {
+					nOpt++
+					got := map[int64]bool{}
+					trace(st.Val, 0, got)
+					c.Check(rule, "driver-flag-source:"+slot+"/"+field, st.Pos(), len(got) == 1 && got[idx],
+						fmt.Sprintf("what the opener reached from Driver.%s stores into bbolt's Options.%s is not (only) the driver argument #%d (found %v): a handle asked to be read-only is opened read-write, or the other way round", slot, field, idx, keysOfInt(got)))
+				}
+			}
+		}
+		c.Check(rule, "opener-sets-bbolt-options:"+slot, g.Pos(), nOpt >= 2, "no store of the read-only / no-freelist-sync options of bbolt was found behind Driver."+slot)
 	}
+}
+
+func keysOfInt(m map[int64]bool) []int64 {
+	var out []int64
+	for k := range m {
+		out = append(out, k)
+	}
+	sort.Slice(out, func(i, j int) bool { return out[i] < out[j] })
+	return out
 }
